@@ -67,6 +67,9 @@ func tagBoundaryRule(r *Run, rule string, m *lexerModel) {
 			okSkip = true
 		}
 	}
+	if !okSkip {
+		okSkip = blockSkipsTagsSSA(w, pm)
+	}
 	if okSkip {
 		r.Ok(rule, pm.blockParse.Name(), "skips <% and %> between statements", w.Pos(pm.blockParse.Decl.Pos()), "if cur is S_START or E_END { advance; continue }")
 	} else {
@@ -76,6 +79,66 @@ func tagBoundaryRule(r *Run, rule string, m *lexerModel) {
 	startTagTransparentSSA(r, rule, pm)
 	// program loop: blank statements dropped
 	blankStatementsRuleSSA(r, rule, pm)
+}
+
+// blockSkipsTagsSSA: the same on the paths of the block parser, with the parser's token predicates (bool methods
+// without a loop that only ask curTokenIs / peekTokenIs) walked in line: every call of the statement parser comes
+// after the current token - as it stands since the last advance - was found to be neither '<%' nor '%>'.
+func blockSkipsTagsSSA(w *World, pm *parserModel) bool {
+	ps := w.parserSSA()
+	fn, stmt := w.SSAFunc(pm.blockParse), w.SSAFunc(pm.stmtParse)
+	if ps == nil || fn == nil || stmt == nil {
+		return false
+	}
+	inline := func(caller, callee *ssa.Function) bool {
+		if callee.Pkg != ps.pkg || callee == ps.curIs || callee == ps.peekIs || callee == ps.next || callee == ps.expect || funcHasLoop(callee) {
+			return false
+		}
+		res := callee.Signature.Results()
+		if res.Len() != 1 || !isBasicKind(res.At(0).Type(), types.Bool) {
+			return false
+		}
+		for _, b := range callee.Blocks {
+			for _, ins := range b.Instrs {
+				if c, isCall := ins.(*ssa.Call); isCall {
+					if g := c.Call.StaticCallee(); g != ps.curIs && g != ps.peekIs {
+						return false
+					}
+				}
+			}
+		}
+		return true
+	}
+	paths, ok := walkPathsUnrolled(fn, nil, inline, 20000)
+	if !ok || len(paths) == 0 {
+		return false
+	}
+	n := 0
+	for _, p := range paths {
+		from := 0 // decisions made about the token under the cursor now
+		for ei, ev := range p.events {
+			c, isCall := ev.(*ssa.Call)
+			if !isCall {
+				continue
+			}
+			switch c.Call.StaticCallee() {
+			case ps.next:
+				from = p.evDecided[ei]
+			case stmt:
+				n++
+				not := map[string]bool{}
+				for _, d := range p.decisions[from:p.evDecided[ei]] {
+					if tok, which, positive, isTest := ps.tokenTest(p, d.cond); isTest && which == "cur" && d.truth != positive {
+						not[tok] = true
+					}
+				}
+				if !not["<%"] || !not["%>"] {
+					return false
+				}
+			}
+		}
+	}
+	return n > 0
 }
 
 // startTagTransparentSSA: on every path of the statement parser on which the current token was found to
@@ -456,10 +519,87 @@ func semicolonRule(r *Run, rule string) {
 			return found
 		}
 		found := skipsSemi(f.Decl.Body, 0)
+		if !found {
+			found = skipsSemiSSA(w, pm, f)
+		}
 		if found {
 			r.Ok(rule, f.Name(), kind+": optional ';' consumed", w.Pos(f.Decl.Pos()), "if peek is ';' { advance }")
 		} else {
 			r.Bad(rule, f.Name(), kind+": trailing ';' not consumed", w.Pos(f.Decl.Pos()), "the sibling statement parsers consume one optional ';' after the expression; this one does not")
 		}
 	}
+}
+
+// skipsSemiSSA: the same on the paths of the statement parser, small helpers of the parser walked in line: behind the
+// last call of the expression parser, a path that finds the next token to be ';' advances the cursor exactly once,
+// a path that finds it not to be ';' does not advance, and both kinds of path exist.
+func skipsSemiSSA(w *World, pm *parserModel, f *FuncInfo) bool {
+	ps := w.parserSSA()
+	fn := w.SSAFunc(f)
+	if ps == nil || fn == nil || pm.pratt == nil {
+		return false
+	}
+	pratt := w.SSAFunc(pm.pratt)
+	skip := map[*ssa.Function]bool{ps.next: true, ps.curIs: true, ps.peekIs: true, pratt: true}
+	if ps.expect != nil {
+		skip[ps.expect] = true
+	}
+	for _, g := range []*FuncInfo{pm.blockParse, pm.stmtParse} {
+		if g != nil {
+			skip[w.SSAFunc(g)] = true
+		}
+	}
+	for _, reg := range pm.regs {
+		if reg.Fn != nil {
+			skip[w.SSAFunc(reg.Fn)] = true
+		}
+	}
+	inline := func(caller, callee *ssa.Function) bool {
+		return callee.Pkg == ps.pkg && !skip[callee] && !funcHasLoop(callee) && callee.Signature.Recv() != nil
+	}
+	paths, ok := walkPathsUnrolled(fn, nil, inline, 20000)
+	if !ok {
+		return false
+	}
+	nYes, nNo := 0, 0
+	for _, p := range paths {
+		last := -1
+		for ei, ev := range p.events {
+			if c, isCall := ev.(*ssa.Call); isCall && c.Call.StaticCallee() == pratt {
+				last = ei
+			}
+		}
+		if last < 0 || p.end != "return" {
+			continue
+		}
+		for di := p.evDecided[last]; di < len(p.decisions); di++ {
+			d := p.decisions[di]
+			if c, isCall := p.resolve(d.cond).(*ssa.Call); isCall && c.Call.StaticCallee() == ps.expect {
+				continue
+			}
+			tok, which, positive, isTest := ps.tokenTest(p, d.cond)
+			if !isTest || tok != ";" || which != "peek" {
+				continue
+			}
+			adv := 0
+			for ei := last + 1; ei < len(p.events); ei++ {
+				if c, isCall := p.events[ei].(*ssa.Call); isCall && c.Call.StaticCallee() == ps.next && p.evDecided[ei] > di {
+					adv++
+				}
+			}
+			if d.truth == positive {
+				if adv != 1 {
+					return false
+				}
+				nYes++
+			} else {
+				if adv != 0 {
+					return false
+				}
+				nNo++
+			}
+			break
+		}
+	}
+	return nYes > 0 && nNo > 0
 }
